@@ -1,7 +1,8 @@
 """C05 - responses are protocol-valid and length-consistent on both server interfaces."""
 PROP = 'C05'
 LEAN_MODULES = ['FalconModel.FinalizeProofs', 'FalconModel.FinalizeProofs2', 'FalconModel.FinalizeTraceProofs',
-                'FalconModel.FinalizeWsgiProofs', 'FalconModel.FinalizeErrProofs', 'FalconModel.FinalizeSseProofs']
+                'FalconModel.FinalizeWsgiProofs', 'FalconModel.FinalizeErrProofs', 'FalconModel.FinalizeSseProofs',
+                'FalconModel.FinalizeNoneProofs', 'FalconModel.FinalizeHistProofs']
 DRIVERS = ['fzdriver', 'fztdriver', 'fz2driver']
 THEOREMS = [
     'Fz.wsgi_asgi_agree', 'Fz.bodiless_no_payload', 'Fz.content_length_exact',
@@ -27,6 +28,12 @@ THEOREMS = [
     'Sse.sse_frames_wellformed', 'Sse.sse_serialize_fields_exact', 'Sse.sse_one_body_per_event', 'Sse.sse_closes_zero',
     'Sse.sse_disconnect_complete', 'Sse.sse_start_content_type', 'Sse.serialize_none_iff', 'Sse.serialize_lines',
     'Sse.sse_multiline_data_is_not_split', 'Sse.splitLF_join', 'Sse.parseBlock_join', 'Sse.decInt_noLF',
+    # ASGI streams that hand out None (FinalizeNone.lean): the documented end-of-body marker of async iterators, a read() returning None
+    'Fn.traceN_wellformed', 'Fn.traceN_closed_exactly_once', 'Fn.traceN_closes_zero_otherwise', 'Fn.asgiTraceN_iter', 'Fn.asgiTraceN_some',
+    'Fn.traceN_iter_payload', 'Fn.loopIterN_cut', 'Fn.loopIterN_some', 'Fn.loopFileN_some', 'Fn.loopIterN_open', 'Fn.loopFileN_open', 'Fn.cutNone_some',
+    # histories on one response (FinalizeHist.lean): setters in any order, re-assignment, render_body() calls in between, the _media_rendered cache
+    'Fh.history_wsgi', 'Fh.history_asgi', 'Fh.history_body_precedence', 'Fh.run_attrs', 'Fh.renderC_eq', 'Fh.renderC_fst', 'Fh.renderC_frame',
+    'Fh.inv_run', 'Fh.inv_step', 'Fh.inv_init', 'Fh.wsgiH_eq', 'Fh.asgiH_eq', 'Fh.hasKey_setKey_self', 'Fh.hasKey_setKey_mono',
 ]
 STATEMENTS = {
     'Fz.wsgi_asgi_agree': 'for every response state (status, text, data, rendered media, stream kind/chunks/failing call, header dict, cookies) and configuration (HEAD, default media type, file_wrapper): the WSGI tail and the ASGI tail produce the same status, the same header list in the same order, the same payload bytes and the same propagation of a stream failure',
@@ -62,6 +69,18 @@ STATEMENTS = {
     'Sse.sse_multiline_data_is_not_split': 'witness: text "a\\nb" is written as one data line followed by a stray line "b" - multi-line values are not split into several data: lines (reported; outside the property statement)',
     'Sse.serialize_none_iff': 'serialize raises exactly when data is not well-formed UTF-8, or json is the data source and its handler raises',
     'Sse.sse_disconnect_complete': 'a client disconnect noticed after any event ends the loop and the exchange is still completed by the final body event',
+    'Fn.traceN_wellformed': 'ASGI, for every sequence of items an async stream hands out call by call (byte strings and None in any order; async iterator/generator or async file-like), every failing stream call and every failing send() index: one start event first, then body events of which only the last has more_body false, nothing afterwards - in particular a stream that ends its body with the documented None marker gets its final body event; a run ended by an exception sent nothing or the start event followed only by body events with more_body true',
+    'Fn.traceN_closed_exactly_once': 'ASGI: once streaming has begun close() is called exactly once, for every hand-out sequence (None items included), stream fault and send fault',
+    'Fn.traceN_closes_zero_otherwise': 'and never when streaming did not begin',
+    'Fn.asgiTraceN_iter': 'for an async iterator / generator the None marker is exhaustion at that point: the exchange is exactly Fz.asgiTrace of the chunks handed out before the first None (the chunks behind it are never asked for), so all Fz theorems apply',
+    'Fn.asgiTraceN_some': 'the event-level model of FinalizeTrace.lean is the special case in which the stream hands out byte strings only',
+    'Fn.traceN_iter_payload': 'fault-free exchange of a None-terminated async iterator (non-HEAD, body-bearing, body from the stream): one body event with more_body per byte string before the marker, then the final empty body event, no exception',
+    'Fh.history_wsgi': 'for every history on a fresh response - assignments of text / data / media (values and None, any order, repeated), header assignments, render_body() calls that return or raise, in any interleaving - what falcon.App.__call__ hands to the server is Fz.wsgi of the response state the history left: the _media_rendered cache never changes the outcome, all Fz theorems (precedence, Content-Length, bodiless, Content-Type) hold judged on the values assigned last',
+    'Fh.history_asgi': 'the same for falcon.asgi.App.__call__ (Fz.asgi)',
+    'Fh.history_body_precedence': 'non-HEAD, body-bearing status: after any history the payload is the text assigned last if not None, else the data assigned last, else the serialised media assigned last, else what the stream delivers - whatever render_body() calls happened in between',
+    'Fh.run_attrs': 'last assignment wins: the attributes a history leaves are the values assigned last; render_body() and header assignments touch neither them nor status, stream, cookies',
+    'Fh.renderC_fst': 'every render_body() call of a history that returns, returns text, else data, else the serialised media as assigned at that moment (the cache never shadows a later assignment)',
+    'Fh.inv_run': 'invariant of every operation: the cache is _UNSET or the serialised form of the media currently assigned, and then the response has a Content-Type (or there is no default type)',
     'Sse.sse_start_content_type': 'the SSE start event is typed text/event-stream unless the response already has a Content-Type, which then stays',
 }
 TRUSTED = [
@@ -75,10 +94,18 @@ ASSUMPTIONS = [
     'falcon.status_codes.HTTP_<n> has the form "<n> <phrase>" (hypothesis TableOk of the status-line theorem; checked on the real module by the oracle status-table)',
     'responders that raise (HTTPError, HTTPStatus, redirects, other exceptions) and the stock error serializer are outside the Lean models: oracle only. Render-time errors are modelled for an arbitrary error handler (a function of the response state); the tie uses generated handlers; with the stock handlers: oracle only',
     'custom response classes overriding render_body(), a Set-Cookie added with append_header: oracle only',
+    'None items exist on ASGI only (a WSGI iterable that yields None is the application breaking PEP 3333); on ASGI a None from an async iterator ends the body (documented), a None from read() is an empty chunk (what the code tolerates); the WSGI run of such a plan gets the stream without the None',
+    'histories: serialising a media value is a function of the value (and fails or not by the type the response has at that moment, decided by the harness from the documentation); an explicit Content-Type without a media handler is assigned before the body attributes (media rendered under one type and re-typed afterwards keeps its cached serialisation - not something the statement speaks about); header values are never deleted inside a history',
     'SSE: str attributes are well-formed Unicode (no lone surrogates); multi-line values are serialised as falcon does (not split, see Sse.sse_multiline_data_is_not_split) and excluded from the read-back oracle; retry is an int (not bool)',
     'F16 stays in the code: 204/304 + media + no explicit type is reported as KNOWN-FINDING, any other framework-supplied Content-Type on 204/304 is a violation',
 ]
-RULE = ('random response plans: status (int / canonical status line / status line with a foreign reason phrase / bare code string / http.HTTPStatus / unknown codes) x '
+RULE = ('[two history-like dimensions added after seeds C05_4 / C05_6: (i) fill histories - with probability 0.35 the plan is filled in by a history on the one response object: each of text / data / media is assigned 0-3 times '
+        '(other values of its pool and None first, the plan\'s value last); either the three sequences are interleaved in a random order and 1-3 calls of the public render_body() are inserted at random positions, '
+        'or the attributes are filled in one after the other in one of the 6 orders with a call after each block (every ordered pair "a call sees source X, source Y is assigned afterwards" occurs) '
+        '(a failing one is survived, as a logging hook would); the header block runs before or after the history; the oracles judge the values assigned last; '
+        '(ii) how an ASGI stream ends / what it hands out: with probability 0.6 a streamed plan\'s async stream hands out None at one call - after the last chunk (the documented end marker, 2/3 of these) or before a random chunk '
+        '(ending the body early; for read() an empty chunk) - for async iterator objects, async generators and async file-like objects; all fault loops cover the extra call] '
+        'random response plans: status (int / canonical status line / status line with a foreign reason phrase / bare code string / http.HTTPStatus / unknown codes) x '
         'method (GET HEAD POST PUT DELETE PATCH OPTIONS) x 0-4 simultaneous body sources (text, data, media of 6 shapes incl. falsy and unserialisable, '
         'stream of 5 kinds: file-like with/without close, iterator object with/without close, generator; 0-5 chunks incl. empty ones, failing call anywhere) x '
         'preset Content-Length (right/wrong, str/int) x preset Content-Type (supported/unsupported) x set_header/append_header/Set-Cookie via append_header/set_cookie/unset_cookie x '
@@ -200,6 +227,8 @@ def run(ctx):
     sess_t = ctx.session('events handed to ASGI send() under stream faults and send() faults at every index + close() count = Fz.asgiTrace', 'fztdriver')
     sess_w = ctx.session('WSGI: start_response calls (status line, header pairs), chunks a PEP 3333 server takes from the returned iterable, close() calls reaching the stream, '
                          'close() on the iterable, wsgi.file_wrapper calls - under every stream fault and every server-abandon point = Wg.call + Wg.serve', 'fz2driver')
+    sess_h = ctx.session('histories on one response (assignments of text / data / media in any order, re-assignments, None, interleaved public render_body() calls, header block before or after): '
+                         'every render_body() result + the finalization on both stacks = Fh.run + Fh.wsgiH / Fh.asgiH', 'fz2driver')
     sess_e = ctx.session('render-time errors with generated error handlers (second rendering, double failure, handler raising), WSGI and ASGI = Fe.wsgiE / Fe.asgiE', 'fz2driver')
     sess_ser = ctx.session('falcon.asgi.SSEvent.serialize on generated events (bytes or the exception) = Sse.serialize', 'fz2driver')
     sess_s = ctx.session('ASGI events of SSE responses under emitter faults, unserialisable events, send() faults at every index and client disconnects + close() count = Sse.sseTrace', 'fz2driver')
@@ -283,6 +312,23 @@ def run(ctx):
         return rec, CUR['probe'], CUR['snap']
 
     # ------------------------------------------------------------------ the oracles (from the property statement)
+    def stream_expected(p, asgi):
+        """The byte strings the plan's stream provides on that stack, by the documentation of Response.stream: up to the
+        failing call; a file-like object up to the first b''; an (async) iterator up to its exhaustion or - ASGI - "as soon
+        as it yields None"; a read() that returns None (ASGI) contributes nothing."""
+        kind, sfail, exp = p['stream']['kind'], p['stream']['fail'], []
+        for i, c in enumerate(R.stream_items(p, asgi)):
+            if sfail is not None and i >= sfail:
+                break
+            if c is R.NONE:
+                if kind.startswith('file'):
+                    continue
+                break
+            if kind.startswith('file') and c == b'':
+                break
+            exp.append(c)
+        return exp
+
     def judge(stack, p, rec, probe, fault):
         asgi = stack == 'asgi'
         case = {'stack': stack, 'plan': p, 'fault': fault}
@@ -382,15 +428,7 @@ def run(ctx):
                 except ValueError:
                     ok = False
             elif src == 'stream':
-                exp = []
-                kind = p['stream']['kind']
-                for i, c in enumerate(p['stream']['chunks']):
-                    if sfail is not None and i >= sfail:
-                        break
-                    if kind.startswith('file') and c == b'':
-                        break
-                    exp.append(c)
-                exp = b''.join(exp)
+                exp = b''.join(stream_expected(p, asgi))
                 ok = exp.startswith(got) if cut_short else got == exp
             else:
                 ok = got == b''
@@ -405,7 +443,7 @@ def run(ctx):
             app_typed = fs['ct_by_app'] or fs['render_fails']
             if not has or app_typed:
                 ctx.oracle('typeless', True, None, case)
-            elif fs['src'] == 'media' and not fs['ct_by_app']:
+            elif (fs['src'] == 'media' or R.hist_typed_by_render(p)) and not fs['ct_by_app']:
                 # F16 (known finding): render_body() stores the default type on the response while rendering media
                 if f16_reported[0] < F16_CAP:
                     f16_reported[0] += 1
@@ -417,7 +455,7 @@ def run(ctx):
         else:
             n = names.count('content-type')
             # (with media also set, rendering it types the response first - same root as F16; the statement only asks for *a* type)
-            want = 'text/event-stream' if (sse and not bodiless_obs and not fs['ct_by_app'] and fs['src'] != 'media') else None
+            want = 'text/event-stream' if (sse and not bodiless_obs and not fs['ct_by_app'] and fs['src'] != 'media' and not R.hist_typed_by_render(p)) else None
             ok = n == 1 and (want is None or hd['content-type'] == want)
             ctx.oracle('has-content-type', ok, None if ok else (f'{n} Content-Type headers on a {code} response' if n != 1 else f'SSE response typed {hd["content-type"]!r}'), case)
 
@@ -478,17 +516,29 @@ def run(ctx):
         nontriv = any(p[k] is not None for k in ('text', 'data', 'media', 'stream', 'sse', 'raise'))
         ctx.seen(('w', key), nontriv)
         ctx.seen(('a', key), nontriv)
+        none_marker = p['stream'] is not None and p['stream'].get('none_at') is not None
         if corr and R.in_model(p) and not wrec.get('hang') and wrec.get('start') and H.asgi_response(arec) is not None \
                 and 'hdr' in wsnap and 'hdr' in asnap:
             st, hl, _ = wrec['start'][0]
             W = R.fz_show(int(st[:3]), hl, wrec['chunks'], wrec['iter_exc'] is not None)
             code, hs_, chunks = H.asgi_response(arec)
             A = R.fz_show(code, hs_, chunks, arec['app_exc'] is not None)
-            sess.case({'plan': p})
-            if wsnap != asnap:
-                sess.op(R.fz_line(p, wsnap), 'response state differs between the stacks before finalization: ' + repr((wsnap, asnap)))
+            if none_marker:
+                # the two stacks are handed different streams (None exists on ASGI only): tied at the event level (Fn.asgiTraceN)
+                ctx.count('in_model_none_marker_event_level_only')
             else:
-                sess.op(R.fz_line(p, wsnap), f'W {W} A {A}')
+                sess.case({'plan': p})
+                if wsnap != asnap:
+                    sess.op(R.fz_line(p, wsnap), 'response state differs between the stacks before finalization: ' + repr((wsnap, asnap)))
+                else:
+                    sess.op(R.fz_line(p, wsnap), f'W {W} A {A}')
+                if p.get('hist') is not None:
+                    # the history itself: every render_body() result and the finalization of what it leaves = Fh
+                    sess_h.case({'plan': p})
+                    if wsnap != asnap:
+                        sess_h.op(R.hist_line(p, wsnap), 'response state differs between the stacks before finalization: ' + repr((wsnap, asnap)))
+                    else:
+                        sess_h.op(R.hist_line(p, wsnap), f"R {R.show_renders(wsnap['renders'])} W {W} A {A}")
             ctx.count('in_model')
         else:
             ctx.count('oracle_only')
@@ -1018,6 +1068,31 @@ def run(ctx):
                 q = dict(p, sse_fail=rnd.choice([None, rnd.randint(0, nev)]), sse_disc=rnd.choice([None, rnd.randint(0, nev - 1)]))
                 one(q, rnd.choice([None, rnd.randint(0, nev + 2)]), 'combo')
 
+    def count_dims(p):
+        """The evidence table of the two history-like dimensions: how the stream ends, and assignment / render histories."""
+        st = p['stream']
+        if st is not None:
+            na = st.get('none_at')
+            what = 'exhaustion' if na is None else 'None_after_last_chunk' if na == len(st['chunks']) else 'None_early'
+            ctx.count('asgi_stream_end_' + ('file_' if st['kind'].startswith('file') else 'iter_') + what)
+        h = p.get('hist')
+        if h is None:
+            ctx.count('fill_single_shot')
+            return
+        ctx.count('fill_history')
+        ctx.count('fill_history_headers_' + ('first' if R.hist_hdr_first(p) else 'last'))
+        ctx.count('fill_history_renders_%d' % sum(1 for op in h if op[0] == 'render'))
+        ctx.count('fill_history_ops_%d' % min(len(h), 9))
+        cur, seen_render_of = {'text': None, 'data': None, 'media': None}, None
+        for op in h:
+            if op[0] == 'render':
+                seen_render_of = next((k for k in ('text', 'data', 'media') if cur[k] is not None), 'nothing')
+                ctx.count('fill_history_render_sees_' + seen_render_of)
+            else:
+                if seen_render_of is not None:
+                    ctx.count(f'fill_history_assign_{op[0]}{"_None" if op[1] is None else ""}_after_render_of_{seen_render_of}')
+                cur[op[0]] = op[1]
+
     def extra_runs():
         status_run()
         rerr_run(ctx.n(3000, 40000))
@@ -1028,9 +1103,10 @@ def run(ctx):
         if hangs[0] >= 2:
             ctx.notes.append(f'shard {ctx.shard[0]}: stopped after case {ci}: the application repeatedly did not return (reported as oracle failures)')
             break
-        p = R.gen_plan(rnd)
+        p = R.gen_plan(rnd, hist_ok=True, none_ok=True)
         fs = final_state(R, p, False)
         wrec, arec = both(p)
+        count_dims(p)
         ctx.count('status_form_' + p['status_form'])
         ctx.count('src_' + str(fs['src']))
         ctx.count('method_' + p['method'])
@@ -1044,7 +1120,7 @@ def run(ctx):
             ctx.sample({'plan': p})
         streamed = fs['src'] == 'stream' and not p['raise'] and p['method'] != 'HEAD' and p['code'] not in R.BODILESS
         if streamed:
-            n = len(p['stream']['chunks'])
+            n = len(p['stream']['chunks']) + (1 if p['stream'].get('none_at') is not None else 0)
             # every stream-fault index (the call after the last chunk included)
             for k in list(range(n + 2)) + [None]:
                 if k != p['stream']['fail']:
@@ -1069,6 +1145,7 @@ def run(ctx):
     sess.finish()
     sess_t.finish()
     sess_w.finish()
+    sess_h.finish()
     sess_e.finish()
     sess_ser.finish()
     sess_s.finish()
@@ -1080,7 +1157,9 @@ LEVEL_TEXT = ('Machine-checked theorems (Lean 4) over models of the tails of fal
               'of the ASGI emission with a failing send() at any index the start/body/more_body framing and close()-exactly-once under every stream and send fault; on an event-level model of the WSGI call '
               '(code_to_http_status, one start_response, the list / wsgi.file_wrapper / CloseableStreamIterator / plain iterable, a PEP 3333 server that may abandon at any index) one start with a valid status line, '
               'chunks = the body of the finalization model, close()-exactly-once as an invariant of the server loop; the render-error path (render, error handler, render again, empty body) reduced to the ordinary finalization on both stacks; '
-              'SSE framing under emitter, serialisation, send and disconnect faults, and SSEvent.serialize read back field by field. '
+              'SSE framing under emitter, serialisation, send and disconnect faults, and SSEvent.serialize read back field by field; '
+              'ASGI streams whose hand-out sequence contains None (the documented end marker of async iterators = exhaustion at that point; a read() returning None), with framing and close()-once for every such sequence; '
+              'histories on one response (setters in any order, re-assignment, None, render_body() calls in between, the _media_rendered cache and its invariant): the finalization after any history is the one of the values assigned last. '
               'Every model is tied to the real apps on every run by a differential correspondence (exact status line / status, header list in order, chunk or event list, close() counts, exception propagation); '
               'independent protocol monitors written from PEP 3333, the ASGI HTTP spec and the event-stream format plus statement oracles decide failing inputs, with fault injection at every stream-call, '
               'server-abandon, send, emitter and disconnect index.')
